@@ -72,6 +72,42 @@ pub open spec fn fast_eq_ub(a: LuaType, b: LuaType) -> bool {
 pub open spec fn sp_is_boolean(t: LuaType) -> bool { t is BooleanConst || t is Boolean || t is DocBooleanConst }
 
 pub open spec fn sp_is_number(t: LuaType) -> bool { t is Number || t is Integer || t is IntegerConst || t is DocIntegerConst || t is FloatConst }
+pub open spec fn sp_is_string(t: LuaType) -> bool { t is StringConst || t is String || t is DocStringConst || t is Language }
+/// the sources the dispatch function hands to check_simple_type_compact
+pub open spec fn simple_src(s: LuaType) -> bool {
+    s is Nil || s is Table || s is Userdata || s is Function || s is Thread || s is Boolean || s is String || s is Integer || s is Number
+        || s is Io || s is Global || s is BooleanConst || s is StringConst || s is IntegerConst || s is FloatConst || s is TableConst
+        || s is DocStringConst || s is DocIntegerConst || s is DocBooleanConst || s is StrTplRef || s is Namespace || s is Variadic || s is Language
+}
+/// pairs check_simple_type_compact certainly accepts (the ones reflexivity needs; `lv` = TypeCheckContext::level)
+pub open spec fn simple_ok(lv: TypeCheckCheckLevel, s: LuaType, c: LuaType) -> bool {
+    match s {
+        LuaType::Unknown | LuaType::Any | LuaType::TplRef(_) => true,
+        LuaType::Nil => c is Nil,
+        LuaType::Table | LuaType::TableConst(_) => c is Table || c is TableConst,
+        LuaType::Userdata => c is Userdata,
+        LuaType::Function => c is Function,
+        LuaType::Thread => c is Thread,
+        LuaType::Boolean | LuaType::BooleanConst(_) => sp_is_boolean(c),
+        LuaType::String => c is String || c is StringConst || c is DocStringConst,
+        LuaType::StringConst(a) => c is String || c is StringConst || (c matches LuaType::DocStringConst(b) && (a == b || lv != TypeCheckCheckLevel::GenericConditional)),
+        LuaType::Integer | LuaType::IntegerConst(_) => c is Integer || c is IntegerConst || c is DocIntegerConst,
+        LuaType::Number | LuaType::FloatConst(_) => sp_is_number(c),
+        LuaType::Io => c is Io,
+        LuaType::Global => c is Global,
+        LuaType::DocIntegerConst(i) => (c matches LuaType::IntegerConst(j) && i == j) || (c matches LuaType::DocIntegerConst(j) && i == j),
+        LuaType::DocStringConst(a) => (c matches LuaType::StringConst(b) && a == b) || (c matches LuaType::DocStringConst(b) && a == b),
+        LuaType::DocBooleanConst(a) => (c matches LuaType::BooleanConst(b) && a == b) || (c matches LuaType::DocBooleanConst(b) && a == b),
+        LuaType::StrTplRef(_) => sp_is_string(c),
+        LuaType::Namespace(a) => c matches LuaType::Namespace(b) && a == b,
+        LuaType::Language(a) => (c matches LuaType::Language(b) && a == b) || c is DocStringConst || c is String || c is StringConst,
+        _ => false,
+    }
+}
+/// pairs it certainly rejects (used for the one negative reflexivity result)
+pub open spec fn simple_err(s: LuaType, c: LuaType) -> bool {
+    s is StrTplRef && !sp_is_string(c) && !(c is Union)
+}
 pub open spec fn sp_tnm(e: TypeCheckFailReason) -> bool { e is TypeNotMatch || e is TypeNotMatchWithReason }
 pub open spec fn res_no_mismatch(r: TypeCheckResult) -> bool { r is Ok || (r matches Err(e) && !sp_tnm(e)) }
 
@@ -95,13 +131,19 @@ pub open spec fn head_ok(db: &DbIndex, s: LuaType, c: LuaType, lvl: int) -> bool
                 } else {
                     match s {
                         LuaType::Unknown | LuaType::Any => true,
-                        LuaType::TplRef(tpl) => tpl.param.constraint matches Some(sc) && lvl < 100 && head_ok(db, sc, c, lvl + 1),
+                        LuaType::TplRef(tpl) => match tpl.param.constraint {
+                            Some(sc) => lvl < 100 && head_ok(db, sc, c, lvl + 1),
+                            None => true,       // check_simple_type_compact: `LuaType::TplRef(_) => return Ok(())`
+                        },
                         LuaType::Instance(i) => lvl < 100 && head_ok(db, i.base, c, lvl + 1),
                         LuaType::TypeGuard(_) => sp_is_boolean(c),
                         LuaType::Never => c is Never,
                         LuaType::ModuleRef(_) => true,
                         LuaType::Union(_) | LuaType::MultiLineUnion(_) => cx_ok(db, s, c, lvl),
-                        _ => false,
+                        // a class expected, a descendant class given: check_ref_type_compact -> check_ref_class -> is_sub_type_of
+                        LuaType::Ref(sid) | LuaType::Def(sid) => is_class_decl(db, sid) && descends(db, c, sid),
+                        // the 23 "simple" sources: what check_simple_type_compact accepts at every check level
+                        _ => simple_src(s) && simple_ok(TypeCheckCheckLevel::GenericConditional, s, c),
                     }
                 }
             }
@@ -162,7 +204,7 @@ pub open spec fn head_err(db: &DbIndex, s: LuaType, c: LuaType, lvl: int) -> boo
                         LuaType::Never => !(c is Never),
                         // the variants the dispatch `match source` does not list: its `_ =>` arm
                         LuaType::SelfInfer | LuaType::Conditional(_) | LuaType::Mapped(_) => true,
-                        _ => false,
+                        _ => simple_src(s) && simple_err(s, c),
                     }
                 }
             }
